@@ -81,7 +81,7 @@ Proof. exact fix_premarshal_frame. Qed.
 Print Assumptions C19_fix_frame.
 
 (* `kustomize edit fix` (RunFix without --vars) writes marshal (fix_premarshal (read file)) with the
-   original comments, and that file reads back as the fixed record — same go-yaml hypotheses (D),
+   original comments (trailing ones included), and that file reads back as the fixed record — same go-yaml hypotheses (D),
    (S3) and plain-comment domain as C17_content *)
 Theorem C19_fix_file :
   forall (e : env) (U : file -> res kust) (R : kust -> string -> list line),
@@ -89,7 +89,7 @@ Theorem C19_fix_file :
     (forall k L, plain_layout L -> covers k L -> U (mkFile (layout_lines R k L) None) = Ok (canon k)) ->
     forall f k k', plain_file f -> other_ok k -> read_typed U f = Ok k ->
       fix_premarshal (file_exists e) k = Ok k' ->
-      fix_file e U R f = (COk, mkFile (marshal (parse_commented_fields f) (render_field R k')) None) /\
+      fix_file e U R f = (COk, mkFile (marshal (parse_commented_fields f) (trailing_kept f) (render_field R k')) None) /\
       read_typed U (snd (fix_file e U R f)) = Ok (fix_kustomization (canon k')).
 Proof. exact fix_file_content. Qed.
 Print Assumptions C19_fix_file.
